@@ -135,6 +135,9 @@ class SmtLibSolver(Solver): # TODO this class is defined twice in pysmt. Here an
         cmd = SmtLibCommand(smtcmd.DECLARE_SORT, [sort])
         self._send_silent_command(cmd)
         self.declared_sorts[-1].add(sort)
+        # The values of this sort, e.g., (as @S_0 S), mention its name
+        if sort.arity == 0 and self.parser.cache.get(sort.basename) is None:
+            self.parser.cache.bind(sort.basename, sort)
 
     def _declare_variable(self, symbol):
         cmd = SmtLibCommand(smtcmd.DECLARE_FUN, [symbol])
